@@ -26,6 +26,60 @@ type SpecEnv struct {
 	oldHeap map[string]*Term
 	oldLW   *Term
 	fr      *Frame // for locals (loop invariants)
+	facts   []*Term // memory-safety facts about references read while evaluating
+	depth   int
+	parent  *SpecEnv // macros see the identifiers of the clause that uses them
+}
+
+func (e *SpecEnv) lookupVar(name string) (SVal, bool) {
+	if v, ok := e.vars[name]; ok {
+		return v, true
+	}
+	if v, ok := e.local(name); ok {
+		return v, true
+	}
+	if e.parent != nil {
+		return e.parent.lookupVar(name)
+	}
+	return SVal{}, false
+}
+
+// refFact records that a reference read from the state is an allocated one.
+func (e *SpecEnv) refFact(ref *Term) {
+	if ref.IsLit() || ref.Op == "ite" {
+		return
+	}
+	if preState(ref) {
+		nonNegRef[ref] = true
+		e.facts = append(e.facts, Ge(ref, IntLit(0)))
+		return
+	}
+	e.facts = append(e.facts, Ge(ref, e.st.lw()))
+}
+
+func (e *SpecEnv) noteRefs(v SVal) {
+	if v.Ty == nil {
+		return
+	}
+	switch v.Ty.Underlying().(type) {
+	case *types.Pointer, *types.Map:
+		e.refFact(v.T)
+	case *types.Slice:
+		e.refFact(Sel(v.T, 0))
+		e.facts = append(e.facts, Ge(Sel(v.T, 2), IntLit(0)), Ge(Sel(v.T, 1), IntLit(0)))
+	}
+}
+
+func (e *SpecEnv) drain() {
+	if e.depth != 0 {
+		return
+	}
+	for _, f := range e.facts {
+		if !f.open {
+			e.st.assume(f)
+		}
+	}
+	e.facts = nil
 }
 
 var bvCounter int
@@ -80,6 +134,15 @@ func (e *SpecEnv) evalBool(x ast.Expr) *Term {
 		e.fail(x, "expected Bool, got %s", r.T.Sort.Name)
 	}
 	return r.T
+}
+
+func (e *SpecEnv) eval(x ast.Expr) SVal {
+	e.depth++
+	r := e.eval1(x)
+	e.depth--
+	e.noteRefs(r)
+	e.drain()
+	return r
 }
 
 func sortType(s *Sort) types.Type {
@@ -162,8 +225,9 @@ func (e *SpecEnv) local(name string) (SVal, bool) {
 	}
 	fn := e.fr.fn
 	// phis of the current block first, then any phi, then allocs
+	dn := debugNames(fn)
 	for _, in := range e.fr.block.Instrs {
-		if p, ok := in.(*ssa.Phi); ok && p.Comment == name {
+		if p, ok := in.(*ssa.Phi); ok && (p.Comment == name || dn[p] == name) {
 			if t, ok := e.st.env[p]; ok {
 				return SVal{t, p.Type()}, true
 			}
@@ -305,7 +369,7 @@ func (e *SpecEnv) resolveType(x ast.Expr) types.Type {
 	return nil
 }
 
-func (e *SpecEnv) eval(x ast.Expr) SVal {
+func (e *SpecEnv) eval1(x ast.Expr) SVal {
 	switch n := x.(type) {
 	case *ast.ParenExpr:
 		return e.eval(n.X)
@@ -336,10 +400,7 @@ func (e *SpecEnv) eval(x ast.Expr) SVal {
 		case "nil":
 			return SVal{IntLit(0), nil}
 		}
-		if v, ok := e.vars[n.Name]; ok {
-			return v
-		}
-		if v, ok := e.local(n.Name); ok {
+		if v, ok := e.lookupVar(n.Name); ok {
 			return v
 		}
 		if e.pkg != nil {
@@ -350,8 +411,8 @@ func (e *SpecEnv) eval(x ast.Expr) SVal {
 		e.fail(n, "unknown identifier %s", n.Name)
 	case *ast.SelectorExpr:
 		if id, ok := n.X.(*ast.Ident); ok {
-			if _, isVar := e.vars[id.Name]; !isVar {
-				if _, isLocal := e.local(id.Name); !isLocal {
+			if _, isVar := e.lookupVar(id.Name); !isVar {
+				{
 					if p := e.lookupPkg(id.Name); p != nil {
 						o := p.Scope().Lookup(n.Sel.Name)
 						if o == nil {
@@ -619,8 +680,14 @@ func (e *SpecEnv) callExpr(n *ast.CallExpr) SVal {
 					}
 					return SVal{Or(parts...), tyBool}
 				}
+				nf := len(e.facts)
 				body := e.evalBool(n.Args[3])
 				rng := And(Le(lo, bv), Lt(bv, hi))
+				for k := nf; k < len(e.facts); k++ {
+					if hasFreeBVar(e.facts[k], nil) && mentions(e.facts[k], bv) {
+						e.facts[k] = Forall([]*Term{bv}, Implies(rng, e.facts[k]))
+					}
+				}
 				if id.Name == "forall" {
 					r = Forall([]*Term{bv}, Implies(rng, body))
 				} else {
@@ -652,6 +719,16 @@ func (e *SpecEnv) callExpr(n *ast.CallExpr) SVal {
 			k := e.eval(n.Args[1])
 			ms := mapSortOf(a.Ty)
 			return SVal{Select(Sel(Select(e.st.getHeap(ms), a.T), 0), k.T), tyBool}
+		case "is", "as":
+			x := e.eval(n.Args[0])
+			T := e.resolveType(n.Args[1])
+			if T == nil || x.T.Sort != SIface {
+				e.fail(n, "is/as need an interface value and a type")
+			}
+			if id.Name == "is" {
+				return SVal{Eq(Sel(x.T, 0), IntLit(typeTag(T))), tyBool}
+			}
+			return SVal{unbox(e.st, x.T, T), T}
 		case "store":
 			a, i, x := e.eval(n.Args[0]), e.eval(n.Args[1]), e.eval(n.Args[2])
 			return SVal{Store(a.T, i.T, e.coerce(x.T, a.T.Sort.Elem)), a.Ty}
@@ -729,11 +806,13 @@ func (e *SpecEnv) macro(m *Macro, n *ast.CallExpr) SVal {
 	if len(n.Args) != len(m.Params) {
 		e.fail(n, "macro arity")
 	}
-	sub := &SpecEnv{v: e.v, st: e.st, pkg: m.Pkg.Types, vars: map[string]SVal{}, oldHeap: e.oldHeap, oldLW: e.oldLW}
+	sub := &SpecEnv{v: e.v, st: e.st, pkg: m.Pkg.Types, vars: map[string]SVal{}, oldHeap: e.oldHeap, oldLW: e.oldLW, depth: 1, parent: e}
 	for i, p := range m.Params {
 		sub.vars[p] = e.eval(n.Args[i])
 	}
-	return sub.eval(m.Body.Expr)
+	r := sub.eval(m.Body.Expr)
+	e.facts = append(e.facts, sub.facts...)
+	return r
 }
 
 func exprString(x ast.Expr) string {
@@ -851,4 +930,39 @@ func tokenizeSExp(s string) []string {
 		}
 	}
 	return out
+}
+
+var debugNameCache = map[*ssa.Function]map[ssa.Value]string{}
+
+// debugNames maps SSA values to the source variable they are bound to.
+func debugNames(fn *ssa.Function) map[ssa.Value]string {
+	if m, ok := debugNameCache[fn]; ok {
+		return m
+	}
+	m := map[ssa.Value]string{}
+	for _, b := range fn.Blocks {
+		for _, in := range b.Instrs {
+			if d, ok := in.(*ssa.DebugRef); ok && !d.IsAddr {
+				if obj, _ := d.Object().(*types.Var); obj != nil && !obj.IsField() {
+					if _, dup := m[d.X]; !dup {
+						m[d.X] = obj.Name()
+					}
+				}
+			}
+		}
+	}
+	debugNameCache[fn] = m
+	return m
+}
+
+func mentions(t, v *Term) bool {
+	if t == v {
+		return true
+	}
+	for _, a := range t.Args {
+		if mentions(a, v) {
+			return true
+		}
+	}
+	return false
 }
